@@ -35,6 +35,7 @@ func runC08(c *Ctx) {
 	if es := c.P.LangFunc("(*Evaluator).evalStatement"); es != nil {
 		c.shared("R10", "C07/R1", "a return inside a loop ends the call with that value: every loop consumes break and continue only and passes every other outcome of its body (the return signal included) on unchanged", keyHas("loop-bod"), func(s *Ctx) { c07LoopConsumption(s, es) })
 	}
+	c.shared("R15", "C07/R10", "a call yields the value of the executed return statement, or null if it has none: the parser gives a return a value exactly where the statement has not ended (a newline after `return` ends it; the next line is a statement of its own)", keyHas("return-node"), func(s *Ctx) { returnValuePresence(s, "R10") })
 	c.shared("R13", "C02/R3", "`next` executed inside a function ends the current element wherever the call is written, a rule pattern included: evalRules returns at once on the next signal from a pattern as from a body", keyHas("errNext-test"), c02R3)
 	c.shared("R14", "C02/R4", "`next` raised while a rule's pattern is evaluated is not read as `no match`: the pattern gate passes every error of the pattern on", keyHas("pattern-gate"), c02R4)
 	c.shared("R12", "C10/R6", "a finished call or match leaves nothing behind: evaluation writes only the documented interpreter state (frames, return slot, roots); nothing is kept in other evaluator fields or in the nodes of the syntax tree", keyHas("evaluator-state", "syntax-tree-store", "interpreter-state"), func(s *Ctx) { interpreterState(s, "R6") })
@@ -243,6 +244,56 @@ func c08R2(c *Ctx, m *frameModel) {
 		return
 	}
 	variableLookupWalk(c, "R2", gv)
+	frameTableFresh(c, "R2", m)
+}
+
+// frameTableFresh: every frame has a variable table of its own. In the push primitive the table
+// stored into the new frame is a map made in that very call, on every way it is computed: a frame
+// that borrows another frame's table (the caller's, for a function without parameters, say) makes
+// the names a call creates outlive the call.
+func frameTableFresh(c *Ctx, rule string, m *frameModel) {
+	p := c.P
+	if m.push == nil {
+		c.undecided(rule, "frame-table-fresh", "", "push primitive not discovered")
+		return
+	}
+	n := 0
+	allInstrs(m.push, func(in ssa.Instruction) {
+		st, ok := in.(*ssa.Store)
+		if !ok {
+			return
+		}
+		sf, ok := fieldOfAddr(st.Addr)
+		if !ok || !isFrameLocals(sf) {
+			return
+		}
+		n++
+		var bad []string
+		seen := map[ssa.Value]bool{}
+		var leaves func(v ssa.Value)
+		leaves = func(v ssa.Value) {
+			if seen[v] {
+				return
+			}
+			seen[v] = true
+			switch x := v.(type) {
+			case *ssa.Phi:
+				for _, e := range x.Edges {
+					leaves(e)
+				}
+				return
+			case *ssa.MakeMap:
+				return
+			}
+			bad = append(bad, p.RenderShort(v))
+		}
+		leaves(st.Val)
+		sort.Strings(bad)
+		c.check(len(bad) == 0, rule, "frame-table-fresh", p.InstrPos(st), "the new frame's variable table is a map made in this push", "the new frame's variable table can be "+strings.Join(bad, " / ")+", a table that exists already: the frame shares its variables with whoever owns that table, so names created during the call are still there after it")
+	})
+	if n == 0 {
+		c.undecided(rule, "frame-table-fresh", p.Pos(m.push.Pos()), "no store of a frame's variable table found in the push primitive")
+	}
 }
 
 // variableLookupWalk: a name is looked up in the current frame first and then in each enclosing
